@@ -22,9 +22,9 @@ type Effect struct {
 // EffectLog is the ordered log of persistence effects plus acknowledgement
 // marks stamped with the effect index at which they were observed.
 type EffectLog struct {
-	mu      sync.Mutex
-	Effects []Effect
-	Marks   []Mark
+	mu       sync.Mutex
+	Effects  []Effect
+	Marks    []Mark
 	OnEffect func(n int) // called after the n-th effect returned (self-kill mode)
 }
 
